@@ -470,4 +470,453 @@ theorem replayOk_iff {f : Fmts} (hs : SortedKeys f) (n : Nat) (hub : ∀ kp ∈ 
     have := h j (by omega)
     simpa [bef] using this
 
+/-! ## C. the point transformations of the loop -/
+
+theorem nodup_append {l₁ l₂ : List Setting} (h : (ids (l₁ ++ l₂)).Nodup) :
+    (ids l₁).Nodup ∧ (ids l₂).Nodup ∧ (∀ s ∈ l₁, hasId l₂ s.id = false) ∧ (∀ s ∈ l₂, hasId l₁ s.id = false) := by
+  simp only [ids, List.map_append] at h
+  obtain ⟨h1, h2, h3⟩ := List.nodup_append.mp h
+  refine ⟨h1, h2, ?_, ?_⟩
+  · intro s hs
+    apply hasId_false_iff.mpr
+    intro t ht e
+    exact h3 s.id (List.mem_map_of_mem hs) t.id (List.mem_map_of_mem ht) e.symm
+  · intro s hs
+    apply hasId_false_iff.mpr
+    intro t ht e
+    exact h3 t.id (List.mem_map_of_mem ht) s.id (List.mem_map_of_mem hs) e
+
+theorem nodup_append_of {l₁ l₂ : List Setting} (h1 : (ids l₁).Nodup) (h2 : (ids l₂).Nodup)
+    (h3 : ∀ s ∈ l₂, hasId l₁ s.id = false) : (ids (l₁ ++ l₂)).Nodup := by
+  simp only [ids, List.map_append]
+  refine List.nodup_append.mpr ⟨h1, h2, ?_⟩
+  intro a ha b hb e
+  obtain ⟨s, hs, rfl⟩ := List.mem_map.mp ha
+  obtain ⟨t, ht, rfl⟩ := List.mem_map.mp hb
+  exact hasId_false_iff.mp (h3 t ht) s hs e
+
+theorem dropWhile_congr {α : Type} {l : List α} {p q : α → Bool} (h : ∀ a ∈ l, p a = q a) :
+    l.dropWhile p = l.dropWhile q := by
+  induction l with
+  | nil => rfl
+  | cons a l ih =>
+    simp only [List.dropWhile_cons, h a (by simp)]
+    split
+    · exact ih (fun b hb => h b (by simp [hb]))
+    · rfl
+
+theorem of_mem_takeWhile {α : Type} {l : List α} {p : α → Bool} {a : α} (h : a ∈ l.takeWhile p) :
+    p a = true := by
+  induction l with
+  | nil => cases h
+  | cons b l ih =>
+    rw [List.takeWhile_cons] at h
+    split at h
+    · rcases List.mem_cons.mp h with rfl | h'
+      · assumption
+      · exact ih h'
+    · cases h
+
+open AStr (removeRems removeAtStart removeLoop selected)
+
+theorem filter_not_hasId_append (c A B : List Setting) :
+    c.filter (fun s => !hasId (A ++ B) s.id)
+      = (c.filter (fun s => !hasId A s.id)).filter (fun s => !hasId B s.id) := by
+  rw [List.filter_filter]
+  apply List.filter_congr
+  intro s _
+  rw [hasId_append, Bool.not_or, Bool.and_comm]
+
+theorem filter_comm' {α : Type} (l : List α) (p q : α → Bool) :
+    (l.filter p).filter q = (l.filter q).filter p := by
+  rw [List.filter_filter, List.filter_filter]
+  apply List.filter_congr
+  intro s _
+  rw [Bool.and_comm]
+
+abbrev sel (M : Option (List Str)) : Setting → Bool := AStr.selected M
+abbrev nsel (M : Option (List Str)) : Setting → Bool := fun s => !AStr.selected M s
+
+/-- one iteration of the `for s in current_settings` loop at `start` -/
+def rasStep (M : Option (List Str)) (acc : Point × List Setting) (s : Setting) : Point × List Setting :=
+  if AStr.selected M s then
+    if hasId acc.1.add s.id then ({ acc.1 with add := eraseId acc.1.add s.id }, acc.2 ++ [s])
+    else ({ acc.1 with rem := acc.1.rem ++ [s] }, acc.2 ++ [s])
+  else acc
+
+theorem removeAtStart_eq (M : Option (List Str)) (p : Point) (R L : List Setting) :
+    AStr.removeAtStart M p R L = L.foldl (rasStep M) (p, R) := rfl
+
+theorem removeAtStart_spec (M : Option (List Str)) (L : List Setting) (hL : (ids L).Nodup)
+    (q : Point) (hq : (ids q.add).Nodup) (R : List Setting) :
+    AStr.removeAtStart M q R L =
+      ({ rem := q.rem ++ L.filter (fun s => sel M s && !hasId q.add s.id),
+         add := q.add.filter (fun a => !hasId (L.filter (sel M)) a.id) },
+       R ++ L.filter (sel M)) := by
+  induction L generalizing q R with
+  | nil =>
+    simp only [removeAtStart_eq, List.foldl_nil, List.filter_nil, List.append_nil, hasId_nil]
+    have : q.add.filter (fun _ => !false) = q.add := List.filter_eq_self.mpr (fun _ _ => rfl)
+    rw [this]
+  | cons s L ih =>
+    obtain ⟨hs1, hs2⟩ := nodup_cons hL
+    rw [removeAtStart_eq, List.foldl_cons, ← removeAtStart_eq]
+    unfold rasStep
+    by_cases hsel : AStr.selected M s = true
+    · simp only [hsel, if_true]
+      by_cases hin : hasId q.add s.id = true
+      · simp only [hin, if_true]
+        rw [ih hs2 _ (by simpa [eraseId_eq_filter hq] using nodup_filter hq _)]
+        simp only
+        have e1 : (s :: L).filter (fun s => sel M s && !hasId q.add s.id)
+            = L.filter (fun s => sel M s && !hasId q.add s.id) := by
+          rw [List.filter_cons_of_neg (by simp [hin])]
+        have e2 : L.filter (fun t => sel M t && !hasId (eraseId q.add s.id) t.id)
+            = L.filter (fun s => sel M s && !hasId q.add s.id) := by
+          apply List.filter_congr
+          intro t ht
+          rw [eraseId_eq_filter hq, hasId_filter_id q.add (fun j => j != s.id)]
+          have : (t.id != s.id) = true := by simpa using hs1 t ht
+          rw [this, Bool.and_true]
+        have e3 : (eraseId q.add s.id).filter (fun a => !hasId (L.filter (sel M)) a.id)
+            = q.add.filter (fun a => !hasId ((s :: L).filter (sel M)) a.id) := by
+          rw [eraseId_eq_filter hq, List.filter_filter, List.filter_cons_of_pos (by simpa using hsel)]
+          apply List.filter_congr
+          intro a _
+          rw [hasId_cons]
+          by_cases e : s.id = a.id
+          · simp [e]
+          · have e' : ¬ a.id = s.id := fun x => e x.symm
+            have x1 : (s.id == a.id) = false := by simpa using e
+            have x2 : (a.id != s.id) = true := by simpa using e'
+            rw [x1, x2]; simp
+        rw [e1, e2, e3, List.filter_cons_of_pos (by simpa using hsel)]
+        simp
+      · have hin' : hasId q.add s.id = false := by simpa using hin
+        simp only [hin', Bool.false_eq_true, if_false]
+        rw [ih hs2 { q with rem := q.rem ++ [s] } hq]
+        simp only
+        have e1 : (s :: L).filter (fun s => sel M s && !hasId q.add s.id)
+            = s :: L.filter (fun s => sel M s && !hasId q.add s.id) := by
+          rw [List.filter_cons_of_pos (by simp [hin', hsel])]
+        have e3 : q.add.filter (fun a => !hasId (L.filter (sel M)) a.id)
+            = q.add.filter (fun a => !hasId ((s :: L).filter (sel M)) a.id) := by
+          rw [List.filter_cons_of_pos (by simpa using hsel)]
+          apply List.filter_congr
+          intro a ha
+          rw [hasId_cons]
+          have : (s.id == a.id) = false := by
+            have := hasId_false_iff.mp hin' a ha
+            simpa using fun x => this x.symm
+          rw [this, Bool.false_or]
+        rw [e1, e3, List.filter_cons_of_pos (by simpa using hsel)]
+        simp
+    · have hsel' : AStr.selected M s = false := by simpa using hsel
+      simp only [hsel', Bool.false_eq_true, if_false]
+      rw [ih hs2 _ hq]
+      rw [List.filter_cons_of_neg (by simp [hsel']), List.filter_cons_of_neg (by simp [hsel'])]
+
+/-- the point at `start`: what the new table does there, and the resulting `removed_settings` -/
+theorem step_start (M : Option (List Str)) {c : List Setting} (hc : (ids c).Nodup) (p : Point)
+    (hcur : (ids (stepPoint c p)).Nodup) (hok : stepOk c p.rem = true) :
+    stepPoint c (AStr.removeAtStart M p [] (stepPoint c p)).1 = (stepPoint c p).filter (nsel M) ∧
+    stepOk c (AStr.removeAtStart M p [] (stepPoint c p)).1.rem = true ∧
+    (AStr.removeAtStart M p [] (stepPoint c p)).2 = (stepPoint c p).filter (sel M) := by
+  rw [stepPoint_eq hc] at hcur
+  obtain ⟨hpre, hadd, hd1, hd2⟩ := nodup_append hcur
+  have hcur' := hcur
+  rw [← stepPoint_eq hc] at hcur'
+  rw [removeAtStart_spec M _ hcur' p hadd []]
+  simp only [List.nil_append]
+  have e1 : (stepPoint c p).filter (fun s => sel M s && !hasId p.add s.id)
+      = (c.filter (fun s => !hasId p.rem s.id)).filter (sel M) := by
+    rw [stepPoint_eq hc, List.filter_append]
+    have : p.add.filter (fun s => sel M s && !hasId p.add s.id) = [] := by
+      apply List.filter_eq_nil_iff.mpr
+      intro a ha
+      simp [hasId_of_mem ha]
+    rw [this, List.append_nil]
+    apply List.filter_congr
+    intro s hs
+    rw [hd1 s hs]; simp
+  have e2 : p.add.filter (fun a => !hasId ((stepPoint c p).filter (sel M)) a.id) = p.add.filter (nsel M) := by
+    apply List.filter_congr
+    intro a ha
+    rw [hasId_filter_of_mem hcur' (sel M) (by rw [stepPoint_eq hc]; simp [ha])]
+  rw [e1, e2]
+  refine ⟨?_, ?_, ?_⟩
+  rotate_left 2
+  · first | trivial | rfl
+  · rw [stepPoint_eq hc]
+    simp only
+    rw [stepPoint_eq hc, List.filter_append]
+    congr 1
+    rw [filter_not_hasId_append]
+    apply List.filter_congr
+    intro s hs
+    rw [hasId_filter_of_mem hpre (sel M) hs]
+  · rw [stepOk_iff hc]
+    obtain ⟨o1, o2⟩ := (stepOk_iff hc p.rem).mp hok
+    refine ⟨?_, ?_⟩
+    · intro r hr
+      rcases List.mem_append.mp hr with hr | hr
+      · exact o1 r hr
+      · exact hasId_of_mem (List.mem_filter.mp (List.mem_filter.mp hr).1).1
+    · apply nodup_append_of o2 (nodup_filter hpre _)
+      intro s hs
+      have := (List.mem_filter.mp (List.mem_filter.mp hs).1).2
+      simpa using this
+
+theorem removeRems_cons (s : Setting) (rem R : List Setting) :
+    removeRems (s :: rem) R =
+      if hasId (removeRems rem R).2 s.id then ((removeRems rem R).1, eraseId (removeRems rem R).2 s.id)
+      else (s :: (removeRems rem R).1, (removeRems rem R).2) := rfl
+
+theorem removeRems_nil (R : List Setting) : removeRems [] R = ([], R) := rfl
+
+theorem removeRems_snd {R : List Setting} (hR : (ids R).Nodup) (rem : List Setting) :
+    (removeRems rem R).2 = R.filter (fun s => !hasId rem s.id) := by
+  induction rem with
+  | nil =>
+    rw [removeRems_nil]
+    exact (List.filter_eq_self.mpr (fun _ _ => rfl)).symm
+  | cons s rem ih =>
+    have h2 : (removeRems (s :: rem) R).2 = eraseId (removeRems rem R).2 s.id := by
+      rw [removeRems_cons]
+      split
+      · rfl
+      · rename_i h
+        exact (eraseId_of_not_hasId (by simpa using h)).symm
+    rw [h2, ih, eraseId_eq_filter (nodup_filter hR _), List.filter_filter]
+    apply List.filter_congr
+    intro t _
+    rw [hasId_cons]
+    by_cases e : s.id = t.id
+    · simp [e]
+    · have e' : ¬ t.id = s.id := fun x => e x.symm
+      have x1 : (s.id == t.id) = false := by simpa using e
+      have x2 : (t.id != s.id) = true := by simpa using e'
+      rw [x1, x2]; simp
+
+theorem removeRems_fst {R : List Setting} (hR : (ids R).Nodup) {rem : List Setting} (hrem : (ids rem).Nodup) :
+    (removeRems rem R).1 = rem.filter (fun s => !hasId R s.id) := by
+  induction rem with
+  | nil => rfl
+  | cons s rem ih =>
+    obtain ⟨h1, h2⟩ := nodup_cons hrem
+    have hs : hasId (removeRems rem R).2 s.id = hasId R s.id := by
+      rw [removeRems_snd hR, hasId_filter_id R (fun j => !hasId rem j)]
+      have : hasId rem s.id = false := hasId_false_iff.mpr h1
+      rw [this]; simp
+    rw [removeRems_cons, hs]
+    by_cases hin : hasId R s.id = true
+    · simp only [hin, if_true]
+      rw [ih h2, List.filter_cons_of_neg (by simp [hin])]
+    · have hin' : hasId R s.id = false := by simpa using hin
+      simp only [hin', Bool.false_eq_true, if_false]
+      rw [ih h2, List.filter_cons_of_pos (by simp [hin'])]
+
+theorem removeRems_fst_subset (rem R : List Setting) : ∀ s ∈ (removeRems rem R).1, s ∈ rem := by
+  induction rem with
+  | nil => intro s hs; cases hs
+  | cons a rem ih =>
+    intro s hs
+    rw [removeRems_cons] at hs
+    split at hs
+    · exact List.mem_cons_of_mem _ (ih s hs)
+    · rcases List.mem_cons.mp hs with rfl | hs
+      · simp
+      · exact List.mem_cons_of_mem _ (ih s hs)
+
+/-- facts shared by the middle points and the point at `end` -/
+theorem mid_core (M : Option (List Str)) {c : List Setting} (hc : (ids c).Nodup) (p : Point)
+    (hok : stepOk c p.rem = true) {R : List Setting} (hR : R.Perm (c.filter (sel M))) :
+    (ids R).Nodup ∧
+    removeRems p.rem R = (p.rem.filter (fun s => !hasId R s.id), R.filter (fun s => !hasId p.rem s.id)) ∧
+    (∀ s ∈ c, hasId R s.id = sel M s) ∧
+    (c.filter (nsel M)).filter (fun s => !hasId (p.rem.filter (fun s => !hasId R s.id)) s.id)
+      = (c.filter (fun s => !hasId p.rem s.id)).filter (nsel M) ∧
+    (∀ r ∈ p.rem.filter (fun s => !hasId R s.id), hasId (c.filter (nsel M)) r.id = true) ∧
+    (ids (p.rem.filter (fun s => !hasId R s.id))).Nodup := by
+  obtain ⟨o1, o2⟩ := (stepOk_iff hc p.rem).mp hok
+  have hRn : (ids R).Nodup := ((hR.map (·.id)).nodup_iff).mpr (nodup_filter hc _)
+  have hRc : ∀ s ∈ c, hasId R s.id = sel M s := by
+    intro s hs
+    rw [hasId_perm hR, hasId_filter_of_mem hc _ hs]
+  refine ⟨hRn, ?_, hRc, ?_, ?_, nodup_filter o2 _⟩
+  · rw [← removeRems_fst hRn o2, ← removeRems_snd hRn]
+  · rw [filter_comm' c (fun s => !hasId p.rem s.id) (nsel M)]
+    apply List.filter_congr
+    intro s hs
+    have hs' := (List.mem_filter.mp hs).1
+    have hns : sel M s = false := by simpa [nsel, sel] using (List.mem_filter.mp hs).2
+    rw [hasId_filter_id p.rem (fun j => !hasId R j), hRc s hs', hns]
+    simp
+  · intro r hr
+    obtain ⟨hr1, hr2⟩ := List.mem_filter.mp hr
+    obtain ⟨s, hs, e⟩ := hasId_iff.mp (o1 r hr1)
+    rw [← e]
+    rw [hasId_filter_of_mem hc _ hs]
+    have := hRc s hs
+    rw [e] at this
+    simp only [Bool.not_eq_true'] at hr2
+    rw [hr2] at this
+    simp [← this]
+
+/-- new point and new `removed_settings` at a change point strictly inside the range -/
+def midPt (M : Option (List Str)) (p : Point) (R : List Setting) : Point :=
+  { rem := (removeRems p.rem R).1, add := p.add.filter (fun s => !AStr.selected M s) }
+
+def midR (M : Option (List Str)) (p : Point) (R : List Setting) : List Setting :=
+  (removeRems p.rem R).2 ++ (p.add.filter (AStr.selected M)).reverse
+
+theorem step_mid (M : Option (List Str)) {c : List Setting} (hc : (ids c).Nodup) (p : Point)
+    (hok : stepOk c p.rem = true) {R : List Setting} (hR : R.Perm (c.filter (sel M))) :
+    stepPoint (c.filter (nsel M)) (midPt M p R) = (stepPoint c p).filter (nsel M) ∧
+    stepOk (c.filter (nsel M)) (midPt M p R).rem = true ∧
+    (midR M p R).Perm ((stepPoint c p).filter (sel M)) := by
+  obtain ⟨hRn, hrr, hRc, hcore, hin, hnd⟩ := mid_core M hc p hok hR
+  have hcn : (ids (c.filter (nsel M))).Nodup := nodup_filter hc _
+  unfold midPt midR
+  rw [hrr]
+  simp only
+  refine ⟨?_, ?_, ?_⟩
+  · rw [stepPoint_eq hcn, stepPoint_eq hc, List.filter_append]
+    simp only
+    rw [hcore]
+  · rw [stepOk_iff hcn]
+    exact ⟨hin, hnd⟩
+  · rw [stepPoint_eq hc, List.filter_append]
+    apply List.Perm.append
+    · have := hR.filter (fun s => !hasId p.rem s.id)
+      refine this.trans ?_
+      rw [filter_comm']
+    · exact List.reverse_perm _
+
+/-- the point at `end` -/
+def endPt (n en : Nat) (p : Point) (R cur : List Setting) : Point :=
+  let rr := removeRems p.rem R
+  if en ≠ n ∧ !rr.2.isEmpty then
+    let carried := (cur.filter (fun s => !hasId p.add s.id)).dropWhile (fun s => !hasId rr.2 s.id)
+    { rem := rr.1 ++ carried.filter (fun s => !hasId rr.2 s.id), add := carried ++ p.add }
+  else { p with rem := rr.1 }
+
+theorem step_end (M : Option (List Str)) (n en : Nat) {c : List Setting} (hc : (ids c).Nodup) (p : Point)
+    (hcur : (ids (stepPoint c p)).Nodup) (hok : stepOk c p.rem = true)
+    {R : List Setting} (hR : R.Perm (c.filter (sel M))) (hn : en = n → stepPoint c p = []) :
+    stepPoint (c.filter (nsel M)) (endPt n en p R (stepPoint c p)) = stepPoint c p ∧
+    stepOk (c.filter (nsel M)) (endPt n en p R (stepPoint c p)).rem = true := by
+  obtain ⟨hRn, hrr, hRc, hcore, hin, hnd⟩ := mid_core M hc p hok hR
+  have hcn : (ids (c.filter (nsel M))).Nodup := nodup_filter hc _
+  have hcur0 := hcur
+  rw [stepPoint_eq hc] at hcur
+  obtain ⟨hpre, hadd, hd1, hd2⟩ := nodup_append hcur
+  -- identities of `rr.2` on the surviving old settings
+  have hrr2 : ∀ s ∈ c.filter (fun s => !hasId p.rem s.id),
+      hasId (R.filter (fun s => !hasId p.rem s.id)) s.id = sel M s := by
+    intro s hs
+    obtain ⟨hs1, hs2⟩ := List.mem_filter.mp hs
+    rw [hasId_filter_id R (fun j => !hasId p.rem j), hRc s hs1, hs2, Bool.and_true]
+  unfold endPt
+  rw [hrr]
+  simp only
+  split
+  · -- restart
+    have e0 : (stepPoint c p).filter (fun s => !hasId p.add s.id) = c.filter (fun s => !hasId p.rem s.id) := by
+      rw [stepPoint_eq hc, List.filter_append]
+      have : p.add.filter (fun s => !hasId p.add s.id) = [] := by
+        apply List.filter_eq_nil_iff.mpr
+        intro a ha
+        simp [hasId_of_mem ha]
+      rw [this, List.append_nil]
+      apply List.filter_eq_self.mpr
+      intro s hs
+      rw [hd1 s hs]; rfl
+    rw [e0]
+    have e1 : (c.filter (fun s => !hasId p.rem s.id)).dropWhile
+          (fun s => !hasId (R.filter (fun s => !hasId p.rem s.id)) s.id)
+        = (c.filter (fun s => !hasId p.rem s.id)).dropWhile (nsel M) := by
+      apply dropWhile_congr
+      intro s hs
+      rw [hrr2 s hs]
+    rw [e1]
+    generalize hpreq : c.filter (fun s => !hasId p.rem s.id) = pre at *
+    have hsplit : pre.takeWhile (nsel M) ++ pre.dropWhile (nsel M) = pre := List.takeWhile_append_dropWhile
+    generalize hT : pre.takeWhile (nsel M) = T at *
+    generalize hC : pre.dropWhile (nsel M) = C at *
+    have hTn : ∀ s ∈ T, nsel M s = true := by
+      intro s hs; rw [← hT] at hs; exact of_mem_takeWhile hs
+    have hCsub : ∀ s ∈ C, s ∈ pre := by
+      intro s hs; rw [← hsplit]; simp [hs]
+    have e2 : C.filter (fun s => !hasId (R.filter (fun s => !hasId p.rem s.id)) s.id) = C.filter (nsel M) := by
+      apply List.filter_congr
+      intro s hs
+      rw [hrr2 s (hCsub s hs)]
+    rw [e2]
+    have hTC : (ids (T ++ C)).Nodup := by rw [hsplit]; exact hpre
+    obtain ⟨hTnd, hCnd, hdT, hdC⟩ := nodup_append hTC
+    refine ⟨?_, ?_⟩
+    · rw [stepPoint_eq hcn, stepPoint_eq hc, hpreq]
+      simp only
+      have : (c.filter (nsel M)).filter
+            (fun s => !hasId (p.rem.filter (fun s => !hasId R s.id) ++ C.filter (nsel M)) s.id) = T := by
+        rw [filter_not_hasId_append, hcore, ← hsplit, List.filter_append, List.filter_append]
+        have t1 : (T.filter (nsel M)).filter (fun s => !hasId (C.filter (nsel M)) s.id) = T := by
+          rw [List.filter_eq_self.mpr hTn]
+          apply List.filter_eq_self.mpr
+          intro s hs
+          have : hasId (C.filter (nsel M)) s.id = false := by
+            apply hasId_false_iff.mpr
+            intro t ht
+            exact hasId_false_iff.mp (hdT s hs) t (List.mem_filter.mp ht).1
+          rw [this]; rfl
+        have t2 : (C.filter (nsel M)).filter (fun s => !hasId (C.filter (nsel M)) s.id) = [] := by
+          apply List.filter_eq_nil_iff.mpr
+          intro a ha
+          simp [hasId_of_mem ha]
+        rw [t1, t2, List.append_nil]
+      rw [this, ← List.append_assoc, hsplit]
+    · rw [stepOk_iff hcn]
+      refine ⟨?_, ?_⟩
+      · intro r hr
+        rcases List.mem_append.mp hr with hr | hr
+        · exact hin r hr
+        · obtain ⟨hr1, hr2⟩ := List.mem_filter.mp hr
+          have hrp : r ∈ pre := hCsub r hr1
+          rw [← hpreq] at hrp
+          exact hasId_of_mem (List.mem_filter.mpr ⟨(List.mem_filter.mp hrp).1, hr2⟩)
+      · apply nodup_append_of hnd (nodup_filter hCnd _)
+        intro s hs
+        have hsp : s ∈ pre := hCsub s (List.mem_filter.mp hs).1
+        rw [← hpreq] at hsp
+        have h1 : hasId p.rem s.id = false := by simpa using (List.mem_filter.mp hsp).2
+        apply hasId_false_iff.mpr
+        intro t ht
+        exact hasId_false_iff.mp h1 t (List.mem_filter.mp ht).1
+  · -- nothing to restart
+    rename_i hcond
+    refine ⟨?_, ?_⟩
+    · rw [stepPoint_eq hcn, stepPoint_eq hc]
+      simp only
+      rw [hcore]
+      congr 1
+      apply List.filter_eq_self.mpr
+      intro s hs
+      by_cases hen : en = n
+      · have := hn hen
+        rw [stepPoint_eq hc] at this
+        have : c.filter (fun s => !hasId p.rem s.id) = [] := (List.append_eq_nil_iff.mp this).1
+        rw [this] at hs; cases hs
+      · have hemp : (R.filter (fun s => !hasId p.rem s.id)).isEmpty = true := by
+          by_cases h : (R.filter (fun s => !hasId p.rem s.id)).isEmpty = true
+          · exact h
+          · exact absurd ⟨hen, by simpa using h⟩ hcond
+        have hnil := List.isEmpty_iff.mp hemp
+        have := hrr2 s hs
+        rw [hnil, hasId_nil] at this
+        simp [nsel, sel] at this ⊢
+        exact this
+    · rw [stepOk_iff hcn]
+      exact ⟨hin, hnd⟩
+
 end Remove
